@@ -695,6 +695,8 @@ func Handle(in []byte) any {
 		runLifecycle(&sc, out)
 	case "killhash":
 		runKillHashing(&sc, out)
+	case "tworeaders":
+		runTwoReaders(&sc, out)
 	case "reader":
 		runReader(&sc, out)
 	default:
